@@ -2,6 +2,7 @@ import Driver.Common
 import Gopki.Model.Db
 import Gopki.Model.Hash
 import Gopki.Abs.Conv
+import Gopki.Abs.Bridge
 /-! Tie between the abstract file-level machine `Conv` (about which C01/C10/C11/C12/C15's file-level
     theorems are proved) and the implementation: for every default-strategy run of a history the observed
     directory is abstracted to a `Conv.St` (aliases ↦ indices; hash views, DNs and keys interned) and
@@ -26,9 +27,8 @@ def abstractState (s0 : Db.State) (tz : Int) : Option (Conv.St × List Nat) := d
   let vid (b : Bytes) : Nat := pool.idxOf b
   let cfgs : List Conv.Cfg := effs.map fun c =>
     ⟨if c.issuer.isEmpty then none else some (idx c.issuer), vid ((Hash.hashSum c tz).getD []), 0⟩
-  let pems : List (Option Conv.Pem) := s0.entities.map fun e =>
-    if e.meta_.lastBuild == 0 then none
-    else some ⟨e.meta_.lastConfigHash.map vid, e.art.cert.map (fun c => ⟨c.subjectKey, 0, 0, 0, 0⟩), e.art.key.map (·.id), e.meta_.lastBuild.toNat⟩
+  -- the abstraction of an artifact file is the one `Bridge.needsUpdate_default_iff_localReason` is about
+  let pems : List (Option Conv.Pem) := s0.entities.map (Bridge.absPem vid)
   let st : Conv.St := { cfg := fun i => cfgs[i]?, pem := fun i => (pems[i]?).getD none, clock := 1000000, nextKey := 1000000 }
   let order := ((Forest.bfs s0.ents (s0.entities.length + 1) [] (Forest.roots s0.ents)).getD []).map idx
   pure (st, order)
